@@ -49,7 +49,8 @@ W_VALUES = {"int": 1, "float": 1.5, "str": "s", "list": [1], "none": None, "bool
             "tuple": (1,), "dict": {"a": 1}, "bytes": b"s"}
 _SCALARS = ("int", "float", "none", "bool", "bigint")
 NULLARY = (["str", "format", "bool", "not", "iter", "aiter", "len", "hash", "neg", "pos", "int", "float", "complex",
-            "getattr", "getitem_str", "getitem_int", "chain", "call0", "call_args", "is_defined", "is_undefined",
+            "getattr", "getattr:_x", "getattr:__x", "getattr:__x_", "getattr:x__", "getattr:__x__",
+            "getitem_str", "getitem_int", "chain", "call0", "call_args", "is_defined", "is_undefined",
             "default", "default_bool", "copy", "deepcopy", "html"]
            + ["pickle%d" % p for p in PICKLE_PROTOCOLS])
 
@@ -128,6 +129,13 @@ def ref(base, origin, op, order=None, wk=None):
         return ("err", "u") if strict else ("hash",)  # CALIBRATED: hashable; law: equal objects hash equal
     if op in ("neg", "pos", "int", "float", "complex", "call0", "call_args"):
         return ("err", "u")
+    if op.startswith("getattr:"):
+        name = op[8:]
+        if name[:2] == "__" and name[-2:] == "__":
+            # CALIBRATED (comment in Undefined.__getattr__): a true dunder name raises AttributeError on every type so
+            # that Python's protocol probing keeps working; any other name, however many underscores, is ordinary
+            return ("attrerr",)
+        return ("self",) if chain else ("err", "u")
     if op in ("getattr", "getitem_str", "getitem_int", "chain"):
         return ("self",) if chain else ("err", "u")
     if op == "is_defined":
@@ -267,6 +275,8 @@ def do_direct(env, u, op, order=None, w=None):
             return ("val", complex(u))
         if op == "getattr":
             return ("val", u.foo)
+        if op.startswith("getattr:"):
+            return ("val", getattr(u, op[8:]))
         if op == "getitem_str":
             return ("val", u["k"])
         if op == "getitem_int":
@@ -331,6 +341,10 @@ def judge(spec, out, origin, u, twin):
         if not message_ok(rule, out[2]):
             return f"UndefinedError message {out[2]!r} does not name the missing value ({rule[0]} {rule[1]!r})"
         return None
+    if kind == "attrerr":
+        if out[0] == "exc" and out[1] is AttributeError:
+            return None
+        return f"expected AttributeError, got {out[1].__name__ + ': ' + out[2] if out[0] == 'exc' else _show(out[1])}"
     if kind == "noattr":
         return None if out == ("noattr",) else f"expected no __html__, got {out!r}"
     if out[0] != "val":
@@ -590,6 +604,8 @@ def run(ctx: core.Ctx):
         "the one whose name the error carries (Python data model order)",
         "the other undefined operand is of the same type as the one under test (same environment)",
         "logging variants: only printing and iteration are required to log (documented); other log traffic is not compared",
+        "Python-level attribute access uses the names foo, _x, __x, __x_, x__ (ordinary: UndefinedError / self for the "
+        "chainable type) and __x__ (true dunder: AttributeError on every type, CALIBRATED from the comment in __getattr__)",
         "int/float filters are not used (their own contract is C23); int()/float()/complex() are exercised directly",
     ]
     wkinds = WKINDS if ctx.quick else WKINDS_THOROUGH
